@@ -42,10 +42,12 @@ class Normalizer(object):
     or    := ('or', (conjunct, ...))      each alternative is itself a tuple of atoms
     """
 
-    def __init__(self, prog, module, subst=None):
+    def __init__(self, prog, module, subst=None, fnode=None):
         self.prog = prog
         self.module = module
         self.subst = subst or {}
+        self.fnode = fnode
+        self._lf_cache = {}
 
     def text(self, node):
         if self.subst:
@@ -56,7 +58,24 @@ class Normalizer(object):
         try:
             v = self.prog.fold(node, self.module)
         except NotFoldable:
-            return ("src", self.text(node))
+            # a straight-line, single-assignment local holding a constant (for example a
+            # parameter temporary of the inlining pass bound to a constant argument)
+            v = None
+            if self.fnode is not None:
+                from sa.core import single_defs_cached, subst_locals
+                defs = single_defs_cached(self.fnode)
+                if defs and any(isinstance(x, ast.Name) and x.id in defs for x in ast.walk(node)):
+                    ck = id(node)
+                    if ck in self._lf_cache and self._lf_cache[ck][0] is node:
+                        v = self._lf_cache[ck][1]
+                    else:
+                        try:
+                            v = self.prog.fold(subst_locals(self.fnode, node), self.module)
+                        except NotFoldable:
+                            v = None
+                        self._lf_cache[ck] = (node, v)
+            if v is None:
+                return ("src", self.text(node))
         if isinstance(v, Opaque):
             return ("src", self.text(node))
         return _hashable(v)
@@ -196,7 +215,7 @@ class FuncGuards(object):
         subst = {}
         if subst_locals:
             subst = single_assignments(finfo.node)
-        self.norm = Normalizer(prog, finfo.module, subst)
+        self.norm = Normalizer(prog, finfo.module, subst, fnode=finfo.node)
 
     # -------------------------------------------------------------- structural context
     def context(self, node, stop=None):
